@@ -8,9 +8,27 @@ open PedVerif.Gen.Frozen
 /-! ## heap lemmas: `deepcopy` hands out fresh identities and preserves the value
 
 The heap these lemmas quantify over has, besides lists / dicts / sets and tuples, **instances of plain user classes**
-(`Kind.obj`: mutable, hashable by identity, `==` is identity) and frozensets (`Kind.fset`), at any depth and in any
-combination; `mutIds` collects lists, dicts, sets *and* such instances. -/
+(`Kind.obj`: mutable, hashable by identity, `==` is identity), frozensets (`Kind.fset`) and **instances of `@frozen_dataclass`
+classes** (`Kind.fz cid`, any number of classes: not changeable in place, but their fields hold arbitrary values — lists, dicts,
+sets, objects, other frozen instances), at any depth and in any combination; `mutIds` collects lists, dicts, sets *and*
+instances of plain classes, also those reachable only *through* frozen instances, tuples and frozensets.
 
+`copy.deepcopy` duplicates an instance of a frozen dataclass only as long as the class does not customise the copy protocol:
+`cfg_no_copy_hooks` is the generated fact that the decorator installs none of `__deepcopy__`, `__copy__`, `__reduce__`,
+`__reduce_ex__`, `__getstate__`, `__setstate__`, `__getnewargs__`, `__getnewargs_ex__`, `__replace__` on the class; every heap
+theorem below rests on it (through `fzRebuilt_true`), so a decorator that starts installing one breaks them. -/
+
+/-- **generated fact**: the decorator leaves the copy protocol of the class alone -/
+theorem cfg_no_copy_hooks : copyProtocolHooks = [] := by decide
+
+/-- … hence `copy.deepcopy` rebuilds instances of frozen dataclasses (`object.__reduce_ex__` / `copy._reconstruct`) -/
+theorem fzRebuilt_true : fzRebuilt = true := by simp [fzRebuilt, cfg_no_copy_hooks]
+
+theorem fz_hook_absurd {k : Kind} (h : (k.isFz && !fzRebuilt) = true) : False := by
+  simp [fzRebuilt_true] at h
+
+/-- all identities of mutable nodes of the copy — lists, dicts, sets, instances of plain classes, at any depth, also inside
+    frozen-dataclass instances — lie in `[n, n')`: fresh w.r.t. everything allocated below `n` -/
 theorem deepcopy_fresh :
     (∀ (o : Obj) (n : Nat), n ≤ (deepcopy o n).2 ∧ ∀ i ∈ (deepcopy o n).1.mutIds, n ≤ i ∧ i < (deepcopy o n).2) ∧
     (∀ (os : List Obj) (n : Nat), n ≤ (deepcopyL os n).2 ∧ ∀ i ∈ mutIdsL (deepcopyL os n).1, n ≤ i ∧ i < (deepcopyL os n).2) := by
@@ -28,8 +46,9 @@ theorem deepcopy_fresh :
     intro i hi
     simp [Obj.mutIds] at hi ⊢
     have := h2 i hi; omega
-  · intro k id items n items' n' h ih
-    simp only [deepcopy, h] at *
+  · intro k id items n hc; exact (fz_hook_absurd hc).elim
+  · intro k id items n hc items' n' h ih
+    simp only [deepcopy, hc, h, Bool.false_eq_true, ↓reduceIte] at *
     obtain ⟨h1, h2⟩ := ih
     refine ⟨by omega, ?_⟩
     intro i hi
@@ -66,8 +85,9 @@ theorem deepcopy_seq :
   · intro id items n items' n' h hid ih
     simp only [deepcopy, h, hid] at *
     simpa [Obj.seq] using ih
-  · intro k id items n items' n' h ih
-    simp only [deepcopy, h] at *
+  · intro k id items n hc; exact (fz_hook_absurd hc).elim
+  · intro k id items n hc items' n' h ih
+    simp only [deepcopy, hc, h, Bool.false_eq_true, ↓reduceIte] at *
     simpa [Obj.seq] using ih
   · intro n; simp [deepcopyL, seqL]
   · intro x xs n x' n1 hx xs' n2 hxs ih1 ih2
@@ -117,8 +137,8 @@ theorem deepcopy_veq_fails_on_object : ¬ deepcopy_veq_full := by
 example : (Obj.box .list 1 [.tup 2 [.box .set 3 []]]).noObj = true := by decide
 
 /-- **heap lemma**: under the allocator invariant (every live identity of the value is below `n`) the deep copy shares no
-    mutable node — list, dict, set or instance of a plain class, directly or inside tuples / frozensets / other nodes — with
-    the original and is the same value — for values of any size and nesting -/
+    mutable node — list, dict, set or instance of a plain class, directly or inside tuples / frozensets / instances of frozen
+    dataclasses / other nodes — with the original and is the same value — for values of any size and nesting -/
 theorem deepcopy_no_shared_mutable (o : Obj) (n : Nat) (hwf : ∀ i ∈ o.mutIds, i < n) :
     (∀ i ∈ (deepcopy o n).1.mutIds, i ∉ o.mutIds) ∧ o.seq (deepcopy o n).1 = true := by
   refine ⟨?_, deepcopy_seq.1 o n⟩
@@ -135,6 +155,64 @@ def exObjVal : Obj :=
 example : exObjVal.mutIds = [1, 4, 5, 6] ∧ (deepcopy exObjVal 10).1.mutIds = [10, 12, 13, 15] := by decide
 example : ∀ i ∈ exObjVal.mutIds, i < 10 := by decide
 example : (Obj.tup 3 [.box .obj 4 [.box .list 5 []]]).hashable = true ∧ (Obj.tup 3 [.box .obj 4 [.box .list 5 []]]).mutIds = [4, 5] := by decide
+
+/-! ### instances of frozen dataclasses nested in values -/
+
+/-- a frozen instance is not a mutable node itself, but everything mutable behind its fields is reachable through it -/
+theorem fz_mutIds (c i : Nat) (items : List Obj) : (Obj.box (.fz c) i items).mutIds = mutIdsL items := by
+  simp [Obj.mutIds, Kind.mutable]
+
+/-- `==` of two frozen instances: same class ∧ equal field tuples (`_cmp_fn`); never equal to a node of another kind -/
+theorem fz_eq_is_field_tuple_eq (c c' i j : Nat) (xs ys : List Obj) :
+    (Obj.box (.fz c) i xs).veq (.box (.fz c') j ys) = (decide (c = c') && veqL xs ys) := by
+  by_cases h : c = c' <;> simp [Obj.veq, Kind.eqKey, h]
+
+/-- `hash` of a frozen instance exists iff the tuple of its fields is hashable (`_hash_add`) -/
+theorem fz_hashable_iff_fields (c i : Nat) (items : List Obj) : (Obj.box (.fz c) i items).hashable = hashableL items := by
+  simp [Obj.hashable, Kind.isFz]
+
+/-- **`copy.deepcopy` rebuilds a frozen instance**: under the allocator invariant the copy of an instance of a
+    `@frozen_dataclass` class is an instance of the same class with a *fresh identity* whose fields are the same values and
+    share no mutable node (list / dict / set / object, at any depth) with the fields of the original.
+    Rests on `cfg_no_copy_hooks`: a `__deepcopy__` (or `__reduce_ex__`, …) installed by the decorator voids it. -/
+theorem deepcopy_rebuilds_frozen (c i : Nat) (items : List Obj) (n : Nat) (hid : i < n) (hlive : ∀ j ∈ mutIdsL items, j < n) :
+    ∃ items' n', deepcopy (.box (.fz c) i items) n = (.box (.fz c) n items', n') ∧
+      (Obj.box (.fz c) n items').ident (.box (.fz c) i items) = false ∧
+      seqL items items' = true ∧ (∀ j ∈ mutIdsL items', j ∉ mutIdsL items) := by
+  refine ⟨(deepcopyL items (n + 1)).1, (deepcopyL items (n + 1)).2, ?_, ?_, deepcopy_seq.2 items (n + 1), ?_⟩
+  · simp [deepcopy, Kind.isFz, fzRebuilt_true]
+  · simp [Obj.ident]; omega
+  · intro j hj hm
+    have := (deepcopy_fresh.2 items (n + 1)).2 j hj
+    have := hlive j hm
+    omega
+
+/-- frozen instances of three classes (helper classes 10 and 11, and class 1 = the class under test itself) nested to depth 3,
+    holding a set / a dict / a list / an object with a list: directly inside each other, inside a tuple, a list and a dict value -/
+def exFzVal : Obj :=
+  .tup 62 [.box (.fz 11) 63 [.box (.fz 10) 64 [.box .set 65 []], .atom .none],
+           .box .list 66 [.box (.fz 10) 67 [.box .dict 68 []]],
+           .box .dict 69 [.atom (.str [107]), .box (.fz 11) 70 [.box .list 71 [],
+              .box (.fz 1) 72 [.atom (.int 3), .box .obj 73 [.box .list 74 []], .atom (.int 5)]]]]
+
+example : exFzVal.mutIds = [65, 66, 68, 69, 71, 73, 74] ∧ ∀ i ∈ exFzVal.mutIds, i < 80 := by decide
+-- every frozen instance of the copy is a new one (80, 81, 84, 87, 89), and so is every mutable node behind them
+example : (deepcopy exFzVal 80).1.allIds = [92, 80, 81, 82, 83, 84, 85, 86, 87, 88, 89, 90, 91] ∧
+    (deepcopy exFzVal 80).1.mutIds = [82, 83, 85, 86, 88, 90, 91] := by decide
+example : ∀ i ∈ (deepcopy exFzVal 80).1.mutIds, i ∉ exFzVal.mutIds := (deepcopy_no_shared_mutable exFzVal 80 (by decide)).1
+example : exFzVal.seq (deepcopy exFzVal 80).1 = true := by decide
+-- Z10([1]) directly: the "copy" that a `__deepcopy__` returning `self` would hand out is the node itself and shares the list
+example : (Obj.box (.fz 10) 60 [.box .list 61 [.atom (.int 1)]]).mutIds = [61] ∧
+    (deepcopy (.box (.fz 10) 60 [.box .list 61 [.atom (.int 1)]]) 80).1.mutIds = [81] := by decide
+-- eq / hash / < of frozen instances
+example : Obj.veq (.box (.fz 10) 1 [.box .list 2 [.atom (.int 1)]]) (.box (.fz 10) 3 [.box .list 4 [.atom (.int 1)]]) = true ∧
+    Obj.veq (.box (.fz 10) 1 [.atom (.int 1)]) (.box (.fz 12) 3 [.atom (.int 1)]) = false ∧
+    Obj.veq (.box (.fz 10) 1 [.box .obj 2 []]) (.box (.fz 10) 3 [.box .obj 4 []]) = false ∧
+    Obj.veq (.box (.fz 10) 1 [.box .obj 2 []]) (.box (.fz 10) 3 [.box .obj 2 []]) = true ∧
+    Obj.vlt (.box (.fz 10) 1 [.atom (.int 1)]) (.box (.fz 10) 3 [.atom (.int 2)]) = none := by decide
+example : (Obj.box (.fz 10) 1 [.box .list 2 []]).hashable = false ∧ (Obj.box (.fz 11) 1 [.atom (.int 1), .box (.fz 10) 2 [.atom .none]]).hashable = true ∧
+    (Obj.box .fset 4 [.box (.fz 10) 5 [.box .obj 6 [.box .list 7 []]]]).hashable = true ∧
+    (Obj.box .fset 4 [.box (.fz 10) 5 [.box .obj 6 [.box .list 7 []]]]).mutIds = [6, 7] := by decide
 
 theorem seq_refl : (∀ o : Obj, o.seq o = true) ∧ (∀ os : List Obj, seqL os os = true) := by
   apply Obj.allIds.mutual_induct (motive_1 := fun o => o.seq o = true) (motive_2 := fun os => seqL os os = true)
@@ -875,8 +953,9 @@ theorem mergeDict_lookup (a b : List (Name × Obj)) (k : Name) :
 
 /-- **C11, deep_copy_with.** Same class; replaced fields hold the objects passed; every other init field holds a value that
     is structurally equal to the original's and shares **no mutable node with the original instance** (for values of any
-    size and nesting), under the allocator invariant "every live identity of the receiver is below `n`";
-    the receiver is what it was. -/
+    size and nesting — including the lists / dicts / sets / objects held by `@frozen_dataclass` instances nested in the field
+    value, which `deepcopy` duplicates because the decorator installs no copy-protocol hook: `cfg_no_copy_hooks`), under the
+    allocator invariant "every live identity of the receiver is below `n`"; the receiver is what it was. -/
 theorem deep_copy_with_meets_spec (self : Inst) (kw : List (Name × Obj)) (n : Nat)
     (hwf : wfCls self.cls = true) (hself : InstOk self) (hkw : specKwValid self.cls kw = true)
     (hlive : ∀ i ∈ self.mutIds, i < n) :
@@ -1173,7 +1252,8 @@ theorem deep_copy_with_fields (self : Inst) (kw : List (Name × Obj)) (n : Nat)
 
 /-- **∀ un-replaced init field: mutableIds(result.f) ∩ mutableIds(self.f) = ∅ ∧ structEq** — and in fact disjoint from every
     mutable node of the original instance, where the mutable nodes are the lists, dicts, sets **and instances of plain
-    classes** at any depth (also inside tuples and frozensets, where hashability says nothing about mutability);
+    classes** at any depth (also inside tuples, frozensets and nested frozen-dataclass instances, where hashability / being
+    frozen says nothing about the mutability of what is held);
     Python's `==` holds too wherever the original value holds no instance of a class with identity equality -/
 theorem deep_copy_no_shared_mutable (self : Inst) (kw : List (Name × Obj)) (n : Nat)
     (hwf : wfCls self.cls = true) (hself : InstOk self) (hkw : specKwValid self.cls kw = true) (hlive : ∀ i ∈ self.mutIds, i < n) :
@@ -1312,9 +1392,10 @@ theorem deepcopy_live :
     · omega
     · have := ih (fun j hj => hl j (by simp [Obj.allIds, hj])) i hi
       omega
-  · intro k id items n items' n' h ih hl i hi
+  · intro k id items n hc; exact (fz_hook_absurd hc).elim
+  · intro k id items n hc items' n' h ih hl i hi
     have hmono := (deepcopy_fresh.2 items (n + 1)).1
-    simp only [deepcopy, h] at *
+    simp only [deepcopy, hc, h, Bool.false_eq_true, ↓reduceIte] at *
     simp only [Obj.allIds, List.mem_cons] at hi
     rcases hi with rfl | hi
     · omega
@@ -1638,6 +1719,32 @@ example : fieldMutIds (runCopy (.build false true .typeSelf true) exObjInst [] 5
 example : (match deepCopyWith exObjInst [] 50 with
     | .ok o => (o.result.fields.lookup 0).map (fun r => ((Obj.box .obj 40 [.atom (.int 1), .box .list 41 []]).veq r, (Obj.box .obj 40 [.atom (.int 1), .box .list 41 []]).seq r))
     | .error _ => none) = some (false, true) := by decide
+
+/-- the same with **nested frozen-dataclass instances**: field 0 = `Z10(g0=[1])`, field 1 = `exFzVal` (frozen instances of three
+    classes — one of them the class of the receiver itself — inside each other, a tuple, a list and a dict value) -/
+def exFzInst : Inst := ⟨[exB, exA], [(0, .box (.fz 10) 60 [.box .list 61 [.atom (.int 1)]]), (1, exFzVal), (2, .atom (.int 5))], []⟩
+
+theorem exFzInst_constructed :
+    construct [exB, exA] [] [(0, .box (.fz 10) 60 [.box .list 61 [.atom (.int 1)]]), (1, exFzVal)] 80 = .ok ⟨exFzInst, 80, []⟩ := by rfl
+example : InstOk exFzInst := (construct_instOk _ _ _ _ _ (by decide) exFzInst_constructed).1
+example : exFzInst.mutIds = [61, 65, 66, 68, 69, 71, 73, 74] ∧ ∀ i ∈ exFzInst.mutIds, i < 80 := by decide
+-- deep_copy_with duplicates every frozen instance and everything behind it; copy_with shares all of it
+example : fieldMutIds (deepCopyWith exFzInst [] 80) 0 = some [81] ∧
+    fieldMutIds (deepCopyWith exFzInst [] 80) 1 = some [84, 85, 87, 88, 90, 92, 93] := by decide
+example : fieldMutIds (copyWith exFzInst [] 80) 0 = some [61] ∧
+    fieldMutIds (copyWith exFzInst [] 80) 1 = some [65, 66, 68, 69, 71, 73, 74] := by decide
+-- what the theorem gives for this instance
+example : ∃ out, deepCopyWith exFzInst [] 80 = .ok out ∧ CopyMeets true exFzInst [] out.result :=
+  let ⟨out, h1, h2, _⟩ := deep_copy_with_meets_spec exFzInst [] 80 (by decide)
+    (construct_instOk _ _ _ _ _ (by decide) exFzInst_constructed).1 (by decide) (by decide)
+  ⟨out, h1, h2⟩
+-- a body without `deepcopy` shares the list behind the frozen instance (as does a `deepcopy` that returns frozen instances as they are)
+example : fieldMutIds (runCopy (.build false true .typeSelf true) exFzInst [] 80) 0 = some [61] := by decide
+-- field 0 is unhashable (the list inside), so is the instance; Python's `==` between original and deep copy of field 0 holds
+example : specHashable exFzInst = false := by decide
+example : (match deepCopyWith exFzInst [] 80 with
+    | .ok o => (o.result.fields.lookup 0).map (fun r => (Obj.box (.fz 10) 60 [.box .list 61 [.atom (.int 1)]]).veq r)
+    | .error _ => none) = some true := by decide
 
 -- order / eq / hash on the example
 example : declaredOrder exInst.cls = true := by decide
